@@ -622,3 +622,18 @@ pub fn obs(w: &World, s: &Snap, o: &Outcome) -> Vec<String> {
     }).collect()));
     v
 }
+
+
+/// second oracle: /repo's own state invariant checker (state/src/check.rs) run on the whole state
+/// tree; returns the messages that concern the registry, the datacap token or claims
+pub fn state_check_messages(v: &Vvm) -> Vec<String> {
+    let acc = fil_actors_integration_tests::util::check_invariants(v, &fil_actors_runtime::runtime::Policy::default(), None).unwrap();
+    acc.messages()
+        .into_iter()
+        .filter(|m| {
+            let l = m.to_lowercase();
+            l.contains("verifreg") || l.contains("datacap") || l.contains("claim ") || l.contains("claims")
+                || l.contains("allocation") || l.contains("token") || l.contains("verified weight")
+        })
+        .collect()
+}
